@@ -22,7 +22,14 @@ import (
 // mounted generated server, under the gated scheduler and the race detector.
 // Echo oracle: every response is the function of its own request.
 
-func init() { engine.Register("C20", runConcurrent) }
+func init() {
+	engine.Register("C20", runConcurrent)
+	// goa's pattern cache is process-wide; the library of patterns designs use is cached up
+	// front so that a run's schedule does not depend on which runs the process hosted before
+	for _, p := range gen.DesignPatterns() {
+		_ = goa.ValidatePattern("warm", "", p)
+	}
+}
 
 type cexchange struct {
 	svc    *spec.Service
